@@ -9,6 +9,14 @@ ALL = ["C%02d" % i for i in range(1, 21)]
 
 # id -> dict(level, technique, text, note, design_ref, engine)
 CHECKS = {
+    "C13": dict(
+        level="exploration",
+        engine="E1-enum",
+        technique="bounded-exhaustive enumeration of programs x every fuel budget from 0 to consumption+3 plus boundary budgets up to u64::MAX",
+        text="For every program of the depth-1 generator space, a fixed-stride subset of the depth-2 space, five multi-template families (include, include in a loop, extends+super, import/from-import of macros, three-level inheritance) and run-time failing variants, under 2 contexts: the unlimited render, the render under 10^6 (consumption c; consumed+remaining == budget at the end and at every probe() call placed inside included templates, macros and blocks, with strictly increasing consumption across probes, which exposes a second tracker in a nested evaluation), then every single budget 0..=c+3 must show exactly one threshold T = c+1 with OutOfFuel below and the unlimited result from T on, determinism at T and T-1, and 7 boundary budgets (2^31 ... 2^63-1, 2^63, 2^64-1).",
+        note="Instruction-level accounting is not cross-checked against an independent instruction count (planned with the C05 hooks). The depth-2 space is visited by stride.",
+        design_ref="2/C13",
+    ),
     "C04": dict(
         level="exploration",
         engine="E1-enum",
